@@ -170,7 +170,7 @@ def reconcile(impl, model):
         mm = re.search(r"OC\((ok:-?\d+)\)", model)
         if mm:
             model = model.replace(mm.group(0), mm.group(1) if oc == "t" else "err")
-    if model == "res=?oracle" and impl in ("res=ok oracle=ok", "res=err verification oracle=err"):
+    if model == "sigres=?oracle" and impl in ("sigres=ok oracle=ok", "sigres=err verification oracle=err"):
         model = impl
     return impl, model
 
